@@ -85,7 +85,7 @@ deriving Repr, DecidableEq
 
 /-- `init_account::<true>` of `Account<T>` / `BorshAccount<T>` reached through `Init` with
 `CreateIfNeeded(())`: funder from the `Context` first; "needs init" = System-owned, or the first `W`
-data bytes all zero (the slice `data[..W]` panics on shorter data); when needed: `check_writable`,
+data bytes all zero (`data.get(..W)`: `AccountDataTooSmall` on shorter data, since `/repo` d51f9cb); when needed: `check_writable`,
 then the creation (a CPI — outside this property: `createAttempted`). -/
 def initIfNeeded (t : PType) (haveFunder : Bool) (a : NAcct) : Except Err Unit :=
   if !haveFunder then .error .emptyFunderCache
@@ -93,7 +93,7 @@ def initIfNeeded (t : PType) (haveFunder : Bool) (a : NAcct) : Except Err Unit :
     let needs : Except Err Bool :=
       if fastEq32 a.a.owner systemId then .ok true
       else if !a.a.borrow.canRead then .error .accountBorrowFailed
-      else if a.a.data.length < t.W then .error .panicked
+      else if a.a.data.length < t.W then .error .accountDataTooSmall
       else .ok ((a.a.data.take t.W).all (· == 0))
     match needs with
     | .error e => .error e
@@ -341,5 +341,71 @@ def runAll : List (NAcct × Check) → Except Err Unit
     match evalCheck a c with
     | .error e => .error e
     | .ok () => runAll cs
+
+/-! ## Sequence carriers validated with NON-`()` arguments
+
+`impls/vec.rs` / `impls/array.rs`: besides `()`, a `Vec<T>` / `[T; N]` validates with
+* `(arg,)` — the argument is cloned for every element;
+* `Vec<arg>` (`Vec` only) — `InvalidArgument` when there are FEWER arguments than elements, otherwise
+  element `i` is validated with argument `i` (`zip`; surplus arguments are ignored);
+* `[arg; M]` — for a `Vec`: `InvalidArgument` unless `M` equals the length, then pairwise; for `[T; N]`
+  the type forces `M = N`.
+`v a x` is the validation of element `x` under argument `a`. -/
+
+/-- `for (account, input) in self.iter_mut().zip(validate_input) { … ? }`. -/
+def validateZip {α β : Type} (v : α → β → Except Err Unit) : List β → List α → Except Err Unit
+  | x :: xs, a :: as =>
+    match v a x with
+    | .error e => .error e
+    | .ok () => validateZip v xs as
+  | _, _ => .ok ()
+
+inductive ArgForm
+  | bcast | vecArgs | arrArgs
+deriving Repr, DecidableEq
+
+/-- `Vec<T>::validate_accounts(args)` for the three non-`()` argument forms. -/
+def validateVecArgs {α β : Type} (v : α → β → Except Err Unit) (form : ArgForm) (xs : List β)
+    (as : List α) : Except Err Unit :=
+  match form with
+  | .bcast =>
+    match as with
+    | a :: _ => validateZip v xs (List.replicate xs.length a)
+    | [] => .ok ()
+  | .vecArgs => if as.length < xs.length then .error .invalidArgument else validateZip v xs as
+  | .arrArgs => if as.length ≠ xs.length then .error .invalidArgument else validateZip v xs as
+
+/-- An element chain whose `Seeded` layer takes its seeds — hence the PDA `k` it expects — from the
+validate argument: the layers above it, the layers below it, the base. -/
+structure ArgChain where
+  outer : List Layer
+  inner : List Layer
+  base : Base
+deriving Repr
+
+def ArgChain.fill (c : ArgChain) (k : List Nat) : List Layer := c.outer ++ .seeded k :: c.inner
+
+/-- Validation of one element under its argument. -/
+def validateArgElem (c : ArgChain) (k : List Nat) (a : NAcct) : Except Err Unit :=
+  validateL (c.fill k) c.base a
+
+/-- Decode of `n` elements of a single-account chain (array: exactly `n`; `Vec`: its decode length). -/
+def decodeElems (b : Base) : Nat → List NAcct → Except Err (List NAcct)
+  | 0, _ => .ok []
+  | _ + 1, [] => .error .notEnoughAccounts
+  | n + 1, a :: rest =>
+    match decodeBase b a with
+    | .error e => .error e
+    | .ok () =>
+      match decodeElems b n rest with
+      | .error e => .error e
+      | .ok xs => .ok (a :: xs)
+
+/-- Decode `n` elements, then validate them with the argument list in the given form. -/
+def decodeValidateArgs (c : ArgChain) (form : ArgForm) (n : Nat) (args : List (List Nat))
+    (accts : List NAcct) : Except Err Unit :=
+  match decodeElems c.base n accts with
+  | .error e => .error e
+  | .ok xs => validateVecArgs (validateArgElem c) form xs args
 
 end Account.Nests
